@@ -24,7 +24,7 @@ M = "lokyverif.harness.c12_tracker_ctl"
 def units(tier):
     t = 900 if tier == "thorough" else 300
     return [
-        ("lokyverif.ets.units_exec", "slice_unit", dict(prop="C12", name="slice.tracker_race", builder="x9_tracker_race", K=40, timeout_s=1200)),
+        ("lokyverif.ets.units_exec", "slice_unit", dict(prop="C12", name="slice.tracker_race", builder="x9_tracker_race", K=44, timeout_s=1200)),
         H("C12", M, "check_ensure_running", t, ["loky.backend.resource_tracker:ResourceTracker.ensure_running"],
           "<=3 consecutive calls; alive/spawn_ok/reap_fails symbolic per call"),
         H("C12", M, "check_identity_inherited", t, ["loky.backend.spawn:get_preparation_data", "loky.backend.spawn:prepare"],
